@@ -132,7 +132,7 @@ class DateTime(datetime.datetime, Date):
         if tz is not None:
             tz = pendulum._safe_timezone(tz, dt=dt)
 
-        return cls.create(
+        instance = cls.create(
             dt.year,
             dt.month,
             dt.day,
@@ -143,6 +143,26 @@ class DateTime(datetime.datetime, Date):
             tz=tz,
             fold=dt.fold,
         )
+
+        offset = dt.utcoffset() if dt.tzinfo is not None else None
+        if offset is not None and instance.utcoffset() != offset:
+            # Some tzinfo implementations (pytz) do not use fold to tell the two
+            # occurrences of a repeated time apart: keep the one the datetime denotes.
+            other = cls.create(
+                dt.year,
+                dt.month,
+                dt.day,
+                dt.hour,
+                dt.minute,
+                dt.second,
+                dt.microsecond,
+                tz=tz,
+                fold=1 - dt.fold,
+            )
+            if other.utcoffset() == offset:
+                instance = other
+
+        return instance
 
     @overload
     @classmethod
